@@ -330,7 +330,7 @@ Example C09_float_hypotheses_hold :
   safe (map of_bits [4602678819172646912; 4609434218613702656; 13835058055282163712; 4598175219545276416; 4613937818241073152; 4608308318706860032; 4597207614006925858]%Z) e_IOL3x /\
   Forall (safe (map of_bits [4609434218613702656; 13835058055282163712; 4598175219545276416; 4613937818241073152; 4608308318706860032; 4604930618986332160; 4597207614006925858]%Z)) outs_LogInt3.
 Proof.
-  split; [apply safeb_sound; vm_compute; reflexivity|].
+  split; [apply safe1_sound; vm_compute; reflexivity|].
   match goal with |- Forall _ ?l => assert (H : forallb (safeb (map of_bits [4609434218613702656; 13835058055282163712; 4598175219545276416; 4613937818241073152; 4608308318706860032; 4604930618986332160; 4597207614006925858]%Z)) l = true) by (vm_compute; reflexivity) end.
   apply Forall_forall. intros e He. apply safeb_sound. rewrite forallb_forall in H. now apply H.
 Qed.
